@@ -276,6 +276,102 @@ pub struct EnumCase {
     pub val: Val,
     /// constructor index to splice over the encoded one (None: leave)
     pub splice: Option<u32>,
+    /// where the reader meets the enum: 0 top level, 1 Vec element, 2 between tuple siblings, 3 field of a version-0
+    /// record, 4 field the reader made optional after the data was written (wrap), 5 field the writer had made
+    /// optional and the reader has not (unwrap), 6 field added by an evolution step (own chunk), 7 inside Some
+    #[serde(default)]
+    pub pos: u8,
+}
+
+const POSITIONS: u8 = 8;
+
+/// the reader's type around the enum, the bytes around the enum's bytes (laid out by hand from the format description:
+/// what matters here is the reader), and how to get the enum value back out of the decoded holder
+fn positioned(pos: u8, to: &Ty, e: &[u8]) -> (Ty, Vec<u8>, fn(&Val) -> Option<Val>) {
+    use vmodel::refcodec::var_i32;
+    use vmodel::{Field, Record, Step};
+    let a = |t: Ty| Arc::new(t);
+    let rec = |name: &str, r: Record| Ty::Adt(vmodel::declgen::struct_decl(&format!("DynHold{name}{:08x}", vmodel::fnv64(to.render().as_bytes()) as u32), &r));
+    let mut b = Vec::new();
+    match pos % POSITIONS {
+        1 => {
+            var_i32(1, &mut b);
+            b.extend_from_slice(e);
+            (Ty::Vec(a(to.clone())), b, |v| match v {
+                Val::Seq(xs) if xs.len() == 1 => Some(xs[0].clone()),
+                _ => None,
+            })
+        }
+        2 => {
+            b.extend_from_slice(&[0, 7]);
+            b.extend_from_slice(e);
+            b.extend_from_slice(&[2, b's']);
+            (Ty::Tuple(vec![Ty::U8, to.clone(), Ty::Str]), b, |v| match v {
+                Val::Tuple(xs) if xs.len() == 3 && xs[0] == Val::Int(7) && xs[2] == Val::str("s") => Some(xs[1].clone()),
+                _ => None,
+            })
+        }
+        3 => {
+            b.push(0);
+            b.extend_from_slice(e);
+            (rec("P", Record { fields: vec![Field::new("e", to.clone())], steps: vec![] }), b, |v| match v {
+                Val::Rec(xs) if xs.len() == 1 => Some(xs[0].clone()),
+                _ => None,
+            })
+        }
+        4 => {
+            // stored version 0, the reader has since made the field optional: the bare value is wrapped
+            b.push(0);
+            b.extend_from_slice(e);
+            (rec("W", Record { fields: vec![Field::new("e", Ty::Option(a(to.clone())))], steps: vec![Step::MadeOptional { name: "e".into() }] }), b, |v| match v {
+                Val::Rec(xs) if xs.len() == 1 => match &xs[0] {
+                    Val::Some(x) => Some((**x).clone()),
+                    _ => None,
+                },
+                _ => None,
+            })
+        }
+        5 => {
+            // stored version 1 whose header says "field 0 of chunk 0 was made optional"; the reader (version 0) has a bare field
+            b.push(1);
+            var_i32(1 + e.len() as i32, &mut b);
+            var_i32(-1, &mut b);
+            b.push(0);
+            b.push(1);
+            b.extend_from_slice(e);
+            (rec("U", Record { fields: vec![Field::new("e", to.clone())], steps: vec![] }), b, |v| match v {
+                Val::Rec(xs) if xs.len() == 1 => Some(xs[0].clone()),
+                _ => None,
+            })
+        }
+        6 => {
+            b.push(1);
+            var_i32(1, &mut b);
+            var_i32(e.len() as i32, &mut b);
+            b.push(9);
+            b.extend_from_slice(e);
+            (rec("A", Record { fields: vec![Field::new("x", Ty::U8), Field::new("e", to.clone())], steps: vec![Step::Added { name: "e".into(), default: vmodel::declgen::sample_val(to, ValCfg { max_len: 1, long: false, ..ValCfg::default() }, 1) }] }), b, |v| match v {
+                Val::Rec(xs) if xs.len() == 2 && xs[0] == Val::Int(9) => Some(xs[1].clone()),
+                _ => None,
+            })
+        }
+        7 => {
+            b.push(1);
+            b.extend_from_slice(e);
+            (Ty::Option(a(to.clone())), b, |v| match v {
+                Val::Some(x) => Some((**x).clone()),
+                _ => None,
+            })
+        }
+        _ => (to.clone(), e.to_vec(), |v| Some(v.clone())),
+    }
+}
+
+/// decodes the enum's bytes where position `pos` puts them; an Ok holder of the wrong shape is reported as an Ok value
+/// of unit type (which no expectation matches)
+fn decode_at(pos: u8, to: &Ty, e: &[u8]) -> Result<Val, vmodel::ErrInfo> {
+    let (ty, bytes, unwrap) = positioned(pos, to, e);
+    vcat::decode(&ty, &bytes).map(|v| unwrap(&v).unwrap_or(Val::Str(format!("HOLDER SHAPE: {}", v.brief()))))
 }
 
 fn enum_of(t: &Ty) -> (&Arc<Decl>, bool, &Vec<vmodel::Variant>) {
@@ -290,11 +386,11 @@ fn enum_of(t: &Ty) -> (&Arc<Decl>, bool, &Vec<vmodel::Variant>) {
 
 fn family_case_strategy(compiled_family: Option<usize>, family: Vec<Ty>) -> BoxedStrategy<EnumCase> {
     let n = family.len();
-    (0..n, 0..n, prop_oneof![3 => Just(None), 2 => prop_oneof![0u32..12, prop::sample::select(vec![127u32, 128, 255, 16384, u32::MAX, 1 << 31])].prop_map(Some)])
-        .prop_flat_map(move |(from, to, splice)| {
+    (0..n, 0..n, prop_oneof![3 => Just(None), 2 => prop_oneof![0u32..12, prop::sample::select(vec![127u32, 128, 255, 16384, u32::MAX, 1 << 31])].prop_map(Some)], prop_oneof![3 => Just(0u8), 4 => 1u8..POSITIONS])
+        .prop_flat_map(move |(from, to, splice, pos)| {
             let fam = family.clone();
             let cf = compiled_family;
-            val_strategy(&fam[from], cfg()).prop_map(move |val| EnumCase { compiled_family: cf, family: fam.clone(), from, to, val, splice })
+            val_strategy(&fam[from], cfg()).prop_map(move |val| EnumCase { compiled_family: cf, family: fam.clone(), from, to, val, splice, pos })
         })
         .boxed()
 }
@@ -354,7 +450,10 @@ pub fn check_c13(c: &EnumCase, acc: &mut Acc, record: bool) -> Verdict {
                     acc.sample(&class, json!({"writer": decl_src(fd), "reader": decl_src(td), "value": c.val.brief(), "bytes_hex": hex(&bytes[..bytes.len().min(48)])}));
                 }
             }
-            let got = vcat::decode(&c.family[c.to], &bytes);
+            let got = decode_at(c.pos, &c.family[c.to], &bytes);
+            if record && c.pos % POSITIONS != 0 {
+                acc.bump(["", "position: Vec element", "position: between tuple siblings", "position: field of a version-0 record", "position: field made optional by the reader (wrap)", "position: field made optional by the writer only (unwrap)", "position: field in its own chunk", "position: inside Some"][(c.pos % POSITIONS) as usize], 1);
+            }
             if vi < tvars.len() {
                 // (b) the reader knows the constructor (same definition or an extension): same variant, same payload
                 let want = with_transient_defaults(&c.family[c.to], &Val::Variant(vi, as_written_fields(&as_written, fields)));
@@ -389,7 +488,7 @@ pub fn check_c13(c: &EnumCase, acc: &mut Acc, record: bool) -> Verdict {
                     acc.sample(&class, json!({"reader": decl_src(td), "value_written": c.val.brief(), "index_spliced": k, "bytes_hex": hex(&bytes[..bytes.len().min(48)])}));
                 }
             }
-            let got = match crate::run::guarded(|| vcat::decode(&c.family[c.to], &bytes)) {
+            let got = match crate::run::guarded(|| decode_at(c.pos, &c.family[c.to], &bytes)) {
                 Ok(g) => g,
                 Err(p) => return Verdict::Fail(format!("{} panicked on constructor index {k}: {p} (bytes {})", td.name, hex(&bytes))),
             };
@@ -445,7 +544,7 @@ pub fn run_c13(cx: &Cx) -> PropResult {
     let mut r = PropResult::new(
         acc,
         "exploration",
-        "enum families E < E' < E'' (variants appended so that they come last in index order; for sorted enums their names sort last; names chosen so that sorted order differs from declaration order; any mix of unit / tuple / struct / transient variants with per-variant evolution histories): 12 families compiled with the real derive macro and families generated at run time (E3). Cases = (writer member, reader member, value, optional constructor index spliced over the written one: 0-11, 127, 128, 255, 16384, 2^31, u32::MAX). Oracles: leading bytes are 00 and the model's var-u32 index (declaration position, or rank by name when sorted; transient constructors count); an extension reads old data as the same variant with the same payload; an older definition answers Err(InvalidConstructorId) to an appended constructor and to every index >= its number of constructors (never a panic); a transient constructor's index gives Err(DeserializingTransientConstructor) naming it, writing one gives Err(SerializingTransientConstructor); an index rewritten to a constructor with an identical record yields that other constructor. Non-trivial = reader has >= 2 non-unit variants and the case crosses definitions, or uses a spliced index.",
+        "enum families E < E' < E'' (variants appended so that they come last in index order; for sorted enums their names sort last; names chosen so that sorted order differs from declaration order; any mix of unit / tuple / struct / transient variants with per-variant evolution histories): 12 families compiled with the real derive macro and families generated at run time (E3). Cases = (writer member, reader member, value, optional constructor index spliced over the written one: 0-11, 127, 128, 255, 16384, 2^31, u32::MAX, position in which the reader meets the enum: top level, Vec element, between tuple siblings, field of a version-0 record, field the reader has since made optional, field only the writer had made optional, field in a chunk of its own, inside Some). Oracles: leading bytes are 00 and the model's var-u32 index (declaration position, or rank by name when sorted; transient constructors count); an extension reads old data as the same variant with the same payload; an older definition answers Err(InvalidConstructorId) to an appended constructor and to every index >= its number of constructors (never a panic); a transient constructor's index gives Err(DeserializingTransientConstructor) naming it, writing one gives Err(SerializingTransientConstructor); an index rewritten to a constructor with an identical record yields that other constructor. Non-trivial = reader has >= 2 non-unit variants and the case crosses definitions, or uses a spliced index.",
     );
     r.extra = json!({"compiled_families": fams.len()});
     r
